@@ -123,7 +123,7 @@ def main(prop_module, argv):
     a = ap.parse_args(argv)
     tier = "thorough" if a.tier.startswith("thor") else "quick"
 
-    if os.environ.get("PYTHONHASHSEED") != "0":
+    if os.environ.get("PYTHONHASHSEED") != "0" and not os.environ.get("VERIF_KEEP_HASHSEED"):
         os.environ["PYTHONHASHSEED"] = "0"
         os.execv(sys.executable, [sys.executable, os.path.join(VERIF, "sim", "check_main.py")] + sys.argv[1:])
 
@@ -264,6 +264,8 @@ def main(prop_module, argv):
         tmp = os.path.join(VERIF, "evidence", "%s.json.tmp" % prop.id)
         json.dump(ev, open(tmp, "w"), indent=1, default=str)
         os.replace(tmp, os.path.join(VERIF, "evidence", "%s.json" % prop.id))
+    dod = hashlib.sha256(json.dumps(sorted(digests.items())).encode()).hexdigest()[:16]
+    print("%s digest_of_digests=%s" % (prop.id, dod))
     print("%s tier=%s runs=%d nontrivial=%d distinct=%d violations=%d harness_errors=%d wall=%.1fs rc=%d" % (
         prop.id, tier, n_runs, n_nontrivial, len(shapes), len(violations), len(herrors), wall, rc))
     return rc
